@@ -262,7 +262,13 @@ func (dir *Local) Remove(file sts.File) (err error) {
 func (dir *Local) Sync(origFile sts.File) (newFile sts.File, err error) {
 	var info os.FileInfo
 	var file *localFile
-	if info, err = os.Lstat(origFile.GetPath()); err != nil {
+	// Look at the path the way Scan did: with FollowSymlinks the walk hands
+	// handleNode the info of a link's target, so no link meta was recorded.
+	stat := os.Lstat
+	if dir.FollowSymlinks {
+		stat = os.Stat
+	}
+	if info, err = stat(origFile.GetPath()); err != nil {
 		return
 	}
 	if file, err = newLocalFile(origFile.GetPath(), origFile.GetName(), info); err != nil {
